@@ -22,6 +22,11 @@ CHECKS = {
   note="Rust typing of emitted shapes is a model (helper signatures, i64::pow, f64::powf); rustc is not run here. Tie: real parser -> TypeChecker expr_types, AstLowering IR types, determine_binop_plan, on exhaustive depth<=2 grids + random depth<=6; binding positions let/return/compound proved+tied, `argument` is a recorded finding (arguments are not type-checked).",
   technique="Lean 4 proof (structural induction over expression trees; finite table by cases) + correspondence with checker/lowering/emit-plan + documented-table oracle",
   ref="C07"),
+ "C10": dict(
+  text="Lean 4 theorems about the lexer's layout machine (indent stack, pending dedents, at_line_start, bracket depth, comment/CR/blank-line branches), each quantified over every lexer state and every continuation, hence over every position of every file: trailing comments, trailing/interior blanks, blank lines, comment lines with any indentation, CR (CRLF), line breaks with any continuation indentation inside brackets leave the token stream unchanged; a final newline only adds the closing NEWLINE; re-indenting by any strictly increasing width map (2/4 spaces, tabs as 4 columns) yields the same INDENT/DEDENT structure. That the parser then builds the same tree (incl. the final-newline case) is decided by the oracle on the real parser.",
+  note="Token scanning is atomic in the model (sources are cut at the real lexer's token spans); parser not modelled for this property. Tie: model token-kind stream = real lexer's on every repository .incn file, synthetic programs and all their edited variants; oracle: AST (spans erased) equal before/after 10 kinds of layout edit.",
+  technique="Lean 4 proof (state-machine simulation lemmas, stack refinement under monotone maps) + lexer correspondence + AST-equality oracle",
+  ref="C10"),
  "C19": dict(
   text="Lean 4 theorems over all documents (List Char, no length bound): offset->position->offset round trip on every character boundary, strict monotonicity, agreement with counting newlines/characters, span_to_range well-formed and inside the document for every pair of raw offsets (empty, reversed, past the end, inside a character), terminal line = editor line + 1; terminal column proved to be a byte count (partial: agrees with the character count when the line prefix is ASCII; counter-example kernel-checked and listed as a known finding).",
   note="u32/usize counters modelled as Nat; model tied to the real functions (and format_error rendering) by exhaustive small documents over a 6-character alphabet plus random documents.",
